@@ -130,3 +130,49 @@ func hasFactCanon(rs relSet, need string) bool {
 	}
 	return false
 }
+
+// parseCallKey splits a structural key of the form name(arg0,arg1,…) at its top-level commas
+// (string literals and nested brackets are respected).
+func parseCallKey(k string) (name string, args []string, ok bool) {
+	i := strings.IndexByte(k, '(')
+	if i <= 0 || k[len(k)-1] != ')' {
+		return "", nil, false
+	}
+	name = k[:i]
+	body := k[i+1 : len(k)-1]
+	depth := 0
+	inStr := false
+	start := 0
+	for j := 0; j < len(body); j++ {
+		c := body[j]
+		if inStr {
+			if c == '\\' {
+				j++
+			} else if c == '"' {
+				inStr = false
+			}
+			continue
+		}
+		switch c {
+		case '"':
+			inStr = true
+		case '(', '[', '{':
+			depth++
+		case ')', ']', '}':
+			depth--
+			if depth < 0 {
+				return "", nil, false
+			}
+		case ',':
+			if depth == 0 {
+				args = append(args, body[start:j])
+				start = j + 1
+			}
+		}
+	}
+	if depth != 0 || inStr {
+		return "", nil, false
+	}
+	args = append(args, body[start:])
+	return name, args, true
+}
